@@ -406,12 +406,31 @@ static std::string ErrKind(const std::string& m)
 
 static const char *g_UserGlobals[] = { "g0", "g1", "g2", "g3", "gf0", "gf1", "gf2", "gf3" };
 
+static bool IsUserName(const std::string& n)
+{
+	/* every name the generators (and their shrunk variants) can assign to: v12, p0, g3, gf1, x, y, n, a, b, c, k1, k2, len, sub */
+	static const char *fixed[] = { "x", "y", "n", "a", "b", "c", "k1", "k2", "sub" };
+	for (const char *f : fixed) if (n == f) return true;
+	size_t i = 0;
+	while (i < n.size() && isalpha((unsigned char)n[i])) i++;
+	std::string pre = n.substr(0, i);
+	if (i == n.size() || (pre != "v" && pre != "p" && pre != "g" && pre != "gf")) return false;
+	for (; i < n.size(); i++) if (!isdigit((unsigned char)n[i])) return false;
+	return true;
+}
+
 static void CleanGlobals()
 {
 	Namespace::Ptr g = ScriptGlobal::GetGlobals();
-	for (const char *n : g_UserGlobals)
-		if (g->Contains(n))
-			g->Remove(n);
+	std::vector<String> drop;
+	{
+		ObjectLock olock(g);
+		for (const Namespace::Pair& kv : g)
+			if (IsUserName(kv.first.GetData()))
+				drop.push_back(kv.first);
+	}
+	for (const String& n : drop)
+		g->Remove(n);
 }
 
 /* compile + evaluate in a fresh frame; never throws */
